@@ -6,7 +6,7 @@
    signature term under honest material occurring in l is one of those (Dolev-Yao).  The key tag is
    a free field of every key, so each statement holds for every tag assignment (collisions
    included); [nrank] (Go's string order) and the record order are universally quantified. *)
-From Sdns Require Import Common.Base Gen.C01 C01.Model C01.Proofs_sig C01.Proofs_chain C01.Proofs_f9 C01.Proofs_top C01.Proofs_deleg C01.Proofs_pad.
+From Sdns Require Import Common.Base Gen.C01 C01.Model C01.Proofs_sig C01.Proofs_chain C01.Proofs_f9 C01.Proofs_top C01.Proofs_deleg C01.Proofs_pad C01.Proofs_chase C01.Proofs_zone.
 Open Scope N_scope.
 
 (* VerifyDS: success means a supported DS of the parent's set is the digest of a key of the child's
@@ -202,6 +202,17 @@ Theorem answer_ignores_foreign_authority : forall E qname qtype cd resp pre post
 Proof. exact answer_ignores_foreign_authority_lemma. Qed.
 Print Assumptions answer_ignores_foreign_authority.
 
+(* the general form — ANY padding owned outside every candidate signer's zone, RRSIGs included, with or without a DNAME
+   leg, for a response that arrives with AD clear (setTags): the two outcomes agree for the client ([osim]): both refusals
+   (only the error's name may differ), or the same reply — question, rcode, answer section, AD — whose authority sections can
+   differ only when the reply carries NO AD (the unvalidated NODATA splice of a DNAME leg lets the section through untouched) *)
+Theorem answer_foreign_padding_general : forall E qname qtype cd resp pre post pds zone,
+  (forall s, In s (find_signers (e_nrank E) (m_ans (bailiwick zone resp)) qname true) -> foreign s (pre ++ post)) ->
+  m_ad resp = false ->
+  osim (validate_answer E qname qtype cd (pad_ns resp pre post) pds zone) (validate_answer E qname qtype cd resp pds zone).
+Proof. exact answer_foreign_padding_general_lemma. Qed.
+Print Assumptions answer_foreign_padding_general.
+
 (* unsigned data is served only when the zone is not secure or an insecure delegation is proven, and that
    proof rests on a DS-denial response verifyDNSSEC accepted *)
 Theorem unsigned_only_when_insecure : forall E qname qtype resp0 pds zone m,
@@ -314,6 +325,49 @@ Print Assumptions client_ad_discipline_cached.
 Theorem cache_clears_ad_on_cd : forall q stored, cache_ad q stored = true -> stored = true /\ q_cd q = false.
 Proof. exact cache_ad_lemma. Qed.
 Print Assumptions cache_clears_ad_on_cd.
+
+(* replies composed from the caches (alias chase over separately filed entries, decoded path and byte path): AD toward the
+   client means no CD, DO or AD set, and EVERY hop of the chase was filed with AD; the path is a chain of alias links *)
+Theorem chase_ad_every_hop : forall q st fuel qn path complete,
+  walk st fuel qn [] = (path, complete) ->
+  forall owners, is_prefix owners path = true -> served_ad q st owners = true ->
+  q_cd q = false /\ (q_do q = true \/ q_ad q = true) /\ linked st path /\
+  forall n, In n owners -> exists e, cs_find st n = Some e /\ ce_ad e = true.
+Proof. exact chase_ad_every_hop_lemma. Qed.
+Print Assumptions chase_ad_every_hop.
+
+(* … and each of those bits is a verdict of the validator: in a store filled by filing resolver outcomes, every hop of an AD
+   reply stands for an answer validate_answer accepted with AD (what that implies: answer_ad_partial, answer_ad_sound) *)
+Theorem served_ad_rests_on_verdicts : forall q st owners (filed : N -> outcome),
+  (forall n e, cs_find st n = Some e -> filed_ad (filed n) = Some (ce_ad e)) ->
+  served_ad q st owners = true ->
+  forall n, In n owners -> exists m, filed n = Accept m /\ m_ad m = true.
+Proof. exact served_ad_rests_on_verdicts_lemma. Qed.
+Print Assumptions served_ad_rests_on_verdicts.
+
+Theorem one_unauthenticated_hop_clears_ad : forall q st owners n e,
+  In n owners -> cs_find st n = Some e -> ce_ad e = false -> served_ad q st owners = false.
+Proof. exact one_bad_hop_no_ad_lemma. Qed.
+Print Assumptions one_unauthenticated_hop_clears_ad.
+
+(* a validating reader meets only bits filed for CD=0 requests, and they are the resolver's verdict *)
+Theorem filed_for_validating_readers : forall v cd a p1, file_verdict v cd = (Some a, p1) -> cd = false /\ a = v.
+Proof. exact file_verdict_cd0_lemma. Qed.
+Print Assumptions filed_for_validating_readers.
+
+(* the zone-membership test every bailiwick / signer / foreign-record decision rests on: the model's label-level [in_zone] IS the
+   code's dnsutil.NameInZone (machine-translated, with its escaped-dot loop) on the presentation of names whose labels are
+   non-empty and free of '.' and backslash — for every such labelling, every pair of names, any fuel >= 1 *)
+Theorem in_zone_is_NameInZone : forall (lbl : N -> list N),
+  (forall l, lbl l <> []) -> (forall l c, In c (lbl l) -> c <> 46 /\ c <> 92) -> (forall a b, lbl a = lbl b -> a = b) ->
+  forall fuel n z, (1 <= fuel)%nat -> go_NameInZone fuel (pres lbl n) (pres lbl z) = Some (in_zone n z).
+Proof. exact gen_NameInZone_lemma. Qed.
+Print Assumptions in_zone_is_NameInZone.
+Example in_zone_tie_instance :   (* labels "a"+l: c.b.a. is below b.a., cb.a. is not below b.a. *)
+  let lbl := fun l : N => [97 + l] in
+  go_NameInZone 1 (pres lbl [2; 1; 0]) (pres lbl [1; 0]) = Some true /\
+  go_NameInZone 1 [99; 98; 46; 97; 46] [98; 46; 97; 46] = Some false.
+Proof. vm_compute. split; reflexivity. Qed.
 
 (* non-vacuity: a genuine signed answer is accepted and its record vouched; the chain hypotheses are
    met by a two-hop world (computed) *)
